@@ -466,3 +466,211 @@ def _filltriu_rt(sh, x, e=None):
 
 FUNCS.update({'triu': _triu_rt, 'filltriu': _filltriu_rt, 'uninit': lambda sid: None,
               'tri_numel': lambda r, c: len(__import__('torch').triu_indices(r, c)[0])})
+
+
+# ---- C17: reference least-loaded greedy placement, written from the property statement
+def _greedy_reference(work, groups, world, colocate):
+    loads = [0.0] * world
+    out = {l: {} for l in work}
+    total = {l: sum(fs.values()) for l, fs in work.items()}
+    order = sorted(work, key=lambda l: -total[l])              # decreasing total cost, ties in input order
+    for l in order:
+        gl = [sum(loads[r] for r in g) for g in groups]
+        g = groups[gl.index(min(gl))]                          # currently least-loaded group (first on ties)
+        if colocate:
+            w = min(g, key=lambda r: (loads[r], g.index(r)))
+            loads[w] += total[l]
+            for f in work[l]:
+                out[l][f] = w
+        else:
+            for f, c in sorted(work[l].items(), key=lambda kv: (kv[1], kv[0]), reverse=True):
+                w = min(g, key=lambda r: (loads[r], g.index(r)))
+                loads[w] += c
+                out[l][f] = w
+    return out
+
+
+def _greedy_balanced(work, groups, world, colocate, result):
+    """Worker loads within the group(s) that received work never differ by more than the largest single item
+    placed (a layer when co-located, a factor otherwise); group loads likewise by the largest layer."""
+    loads = [0.0] * world
+    for l, fs in result.items():
+        for f, r in fs.items():
+            loads[r] += work[l][f]
+    items = [sum(fs.values()) for fs in work.values()] if colocate else [c for fs in work.values() for c in fs.values()]
+    big = max(items, default=0.0)
+    layer_big = max([sum(fs.values()) for fs in work.values()], default=0.0)
+    eps = 1e-9 * (1 + sum(abs(x) for x in loads))
+    disjoint = len({r for g in groups for r in g}) == sum(len(g) for g in groups)
+    if not disjoint:
+        return True           # the balance statement is about disjoint worker groups
+    for g in groups:
+        gl = [loads[r] for r in g]
+        if max(gl) - min(gl) > big + eps:
+            H.last_detail = f'group {g}: worker loads {gl} differ by more than the largest item {big}'
+            return False
+    tot = [sum(loads[r] for r in g) for g in groups]
+    if max(tot) - min(tot) > layer_big + eps:
+        H.last_detail = f'group loads {tot} differ by more than the largest layer {layer_big}'
+        return False
+    return True
+
+
+def _greedy_again(work, groups, world, colocate):
+    import copy
+    from kfac.assignment import KAISAAssignment
+    return KAISAAssignment.greedy_assignment(copy.deepcopy(work), copy.deepcopy(groups), world, colocate)
+
+
+FUNCS.update({'greedy_reference': _greedy_reference, 'greedy_balanced': _greedy_balanced, 'greedy_again': _greedy_again})
+
+
+# ---- C16: reference of "exactly the eligible layers", written from the property statement
+def _leaves(root):
+    """(first qualified name, module) of every leaf module instance, each instance once, in traversal order."""
+    seen, out = set(), []
+
+    def walk(prefix, m):
+        if id(m) in seen:
+            return
+        seen.add(id(m))
+        kids = list(m._modules.items())
+        kids = [(n, c) for n, c in kids if c is not None]
+        if not kids:
+            out.append((prefix, m))
+        for n, c in kids:
+            walk(f'{prefix}.{n}' if prefix else n, c)
+    walk('', root)
+    return out
+
+
+def _eligible(root, skip):
+    import re
+    import torch
+    res = set()
+    for name, m in _leaves(root):
+        if not isinstance(m, (torch.nn.Linear, torch.nn.Conv2d)):
+            continue
+        if not all(p.requires_grad for p in m.parameters()):
+            continue
+        if any(re.search(p, name) for p in skip) or any(re.search(p, type(m).__name__) for p in skip):
+            continue
+        res.add(m)
+    return res
+
+
+def _helper_matches(module, helper):
+    import torch
+    from kfac.layers.modules import LinearModuleHelper, Conv2dModuleHelper
+    if isinstance(module, torch.nn.Linear):
+        return type(helper) is LinearModuleHelper and helper.module is module
+    if isinstance(module, torch.nn.Conv2d):
+        return type(helper) is Conv2dModuleHelper and helper.module is module
+    return helper is None
+
+
+def _fingerprint(model):
+    out = []
+    for n, m in model.named_modules():
+        out.append((n, type(m).__name__, m.training, len(m._forward_hooks), len(m._forward_pre_hooks), len(m._backward_hooks),
+                    tuple(sorted(k for k in vars(m) if not k.startswith('_')))))
+    for n, p in model.named_parameters():
+        out.append((n, tuple(p.shape), p.requires_grad, float(p.detach().double().sum())))
+    return out
+
+
+FUNCS.update({
+    're_search_any': lambda q, ps: any(__import__('re').search(p, q) is not None for p in ps),
+    'all_params_require_grad': lambda m: all(p.requires_grad for p in m.parameters()),
+    'leaf_modules_reference': _leaves,
+    'eligible_modules_reference': _eligible,
+    'first_qualified_name': lambda root, m: next(n for n, x in _leaves(root) if x is m),
+    'helper_matches_reference': _helper_matches,
+    'model_fingerprint': _fingerprint,
+})
+
+
+# ---- C12: whole-topology reference for GPTNeoXAssignment, written from the property statement
+class _FakeGroup:
+    def __init__(self, ranks):
+        self.ranks = tuple(ranks)
+
+    def __repr__(self):
+        return f'group{self.ranks}'
+
+
+def _neox_world(work, topology):
+    """Construct the REAL GPTNeoXAssignment on every rank of the topology (new_group recorded per rank)."""
+    import copy
+    import torch.distributed as dist
+    from kfac.gpt_neox.assignment import GPTNeoXAssignment
+    W = topology.world_size()
+    dp_lists, mp_lists = topology.get_axis_comm_lists('data'), topology.get_axis_comm_lists('model')
+    dp_groups = {tuple(l): _FakeGroup(l) for l in dp_lists}
+    mp_groups = {tuple(l): _FakeGroup(l) for l in mp_lists}
+    out, calls = {}, {}
+    orig = dist.new_group
+    try:
+        for r in range(W):
+            log = []
+            dist.new_group = lambda ranks=None, *a, __log=log, **k: (__log.append(tuple(ranks)), _FakeGroup(ranks))[1]
+            dpg = next(g for l, g in dp_groups.items() if r in l)
+            mpg = next(g for l, g in mp_groups.items() if r in l)
+            out[r] = GPTNeoXAssignment(copy.deepcopy(work), local_rank=r, topology=topology,
+                                       data_parallel_group=dpg, model_parallel_group=mpg)
+            calls[r] = log
+    finally:
+        dist.new_group = orig
+    return out, calls, dp_lists, mp_lists
+
+
+def _neox_world_consistent(self, work, topology):
+    asg, calls, dp_lists, mp_lists = _neox_world(work, topology)
+    W = topology.world_size()
+    stage = {r: topology.get_coord(r).pipe for r in range(W)}
+
+    def grp(r, lists):
+        return next(l for l in lists if r in l)
+    # process groups: every rank issues the same sequence of new_group calls (torch requires it)
+    if any(calls[r] != calls[0] for r in range(W)):
+        r = next(r for r in range(W) if calls[r] != calls[0])
+        H.last_detail = f'new_group sequences differ: rank 0 {calls[0]} vs rank {r} {calls[r]}'
+        return False
+    for r in range(W):
+        a = asg[r]
+        peers = [q for q in range(W) if stage[q] == stage[r]]
+        loads = {q: 0.0 for q in peers}
+        # least-loaded greedy over the stage's ranks, layers by decreasing (cost, name)
+        for layer, cost in sorted(((l, sum(f.values())) for l, f in work.items()), key=lambda t: (t[1], t[0]), reverse=True):
+            w = min(peers, key=lambda q: (loads[q], peers.index(q)))
+            loads[w] += cost
+            for f in work[layer]:
+                if a.inv_worker(layer, f) != w:
+                    H.last_detail = f'rank {r}: inv_worker({layer},{f}) = {a.inv_worker(layer, f)}, least-loaded greedy gives {w}'
+                    return False
+        for layer in work:
+            facs = list(work[layer])
+            if not facs:
+                continue
+            iw = a.inv_worker(layer, facs[0])
+            # all ranks of the stage agree, the worker is one of the stage's ranks
+            if any(asg[q].inv_worker(layer, f) != iw for q in peers for f in facs) or iw not in peers:
+                H.last_detail = f'stage of rank {r} disagrees on the inverse worker of {layer}'
+                return False
+            fw = a.factor_worker(layer, facs[0])
+            if fw not in grp(r, mp_lists) or fw not in grp(iw, dp_lists):
+                H.last_detail = f'rank {r}: factor worker {fw} of {layer} not in own model-parallel group and the inverse worker\'s data-parallel group'
+                return False
+            src = a.src_grad_worker(layer)
+            if src not in grp(r, dp_lists) or topology.get_coord(src).model != topology.get_coord(r).model:
+                H.last_detail = f'rank {r}: gradient source {src} of {layer} is not in its data-parallel group with the same shard'
+                return False
+            if a.is_grad_worker(layer) != (r in grp(iw, mp_lists)):
+                H.last_detail = f'rank {r}: is_grad_worker({layer}) = {a.is_grad_worker(layer)} but model-parallel peers of the inverse worker are {grp(iw, mp_lists)}'
+                return False
+        if a.broadcast_gradients() is not True or a.broadcast_inverses() is not False:
+            return False
+    return True
+
+
+FUNCS['neox_world_consistent'] = _neox_world_consistent
